@@ -76,7 +76,7 @@ func TestC18CloudEvents(t *testing.T) {
 		signer := rapid.SampledFrom([]string{"nil", "ok", "ok", "ok", "fail", "fail"}).Draw(t, "signer")
 		et := rapid.SampledFrom(eventTypes).Draw(t, "eventType")
 		listed := rapid.Bool().Draw(t, "listed")
-		pred := rapid.SampledFrom([]string{"nil", "nil", "true", "false", "error"}).Draw(t, "predicate")
+		pred := rapid.SampledFrom([]string{"nil", "nil", "true", "false", "error", "true+error"}).Draw(t, "predicate")
 		created := time.Date(2026, 5, 17, 20, 34, 58, rapid.IntRange(0, 999999999).Draw(t, "nanos"), time.FixedZone("x", rapid.SampledFrom([]int{0, 3600, -5 * 3600}).Draw(t, "zone")))
 		desc := fmt.Sprintf("payload=%s(%s) format=%q source=%s schema=%s signer=%s listed=%v type=%q pred=%s", kind, d, format, source, schema, signer, listed, et, pred)
 
@@ -151,6 +151,8 @@ func TestC18CloudEvents(t *testing.T) {
 			f.Predicate = func(context.Context, interface{}) (bool, error) { predCalled = true; return false, nil }
 		case "error":
 			f.Predicate = func(context.Context, interface{}) (bool, error) { predCalled = true; return false, predErr }
+		case "true+error":
+			f.Predicate = func(context.Context, interface{}) (bool, error) { predCalled = true; return true, predErr }
 		}
 		ev := &eventlogger.Event{Type: eventlogger.EventType(et), CreatedAt: created, Formatted: map[string][]byte{}, Payload: payload}
 		out, err := f.Process(context.Background(), ev)
@@ -192,7 +194,7 @@ func TestC18CloudEvents(t *testing.T) {
 			if err != nil || out != nil {
 				t.Fatalf("VIOLATION C18: predicate false must drop the event (event=%v err=%v)\ncase: %s", out != nil, err, desc)
 			}
-		case "error":
+		case "error", "true+error":
 			if err == nil || out != nil {
 				t.Fatalf("VIOLATION C18: predicate error must be an error (event=%v err=%v)\ncase: %s", out != nil, err, desc)
 			}
